@@ -12,7 +12,7 @@ from vlib import worldops
 
 ID = 'C10'
 LEVEL = 'exploration'
-BUDGET = {'quick': 800, 'thorough': 3000}
+BUDGET = {'quick': 1000, 'thorough': 3000}
 RULE = ('Hypothesis-generated histories over populations of 2-6 recorder handlers, on a plain EventDispatcher '
         '(harness holds the only strong references and drops them at generated points) and on a World '
         '(components whose only strong reference is the world): add / remove / forget+gc.collect / dispatch / '
@@ -99,7 +99,7 @@ def decode_op(t):
     if kind in ('dispatch', 'deferred'):
         return [kind, d[0], (p >> 4) % 1440]       # perm selector: odd -> injected order
     if kind == 'arm':
-        return ['arm', d[0] % 6, d[1] % 6, d[2] % 4]
+        return ['arm', d[0] % 6, d[1] % 6, (0, 1, 2, 3, 3, 0)[d[2] % 6]]
     return ['gc']
 
 
